@@ -35,7 +35,7 @@ func (s *wireSrc) Read(p []byte) (int, error) {
 	return n, nil
 }
 
-var wireReason = regexp.MustCompile(`^(HTTP/1\.1 \d+) [^\r]*\r\n`)
+var wireReason = regexp.MustCompile(`^(HTTP/1\.[01] \d+) [^\r]*\r\n`)
 
 func init() {
 	families["wire"] = Family{
@@ -54,16 +54,23 @@ func init() {
 				var buf bytes.Buffer
 				r := responder.NewRawHTTPResponder(&buf)
 				method := "GET"
-				if f[2] == "1" {
+				if f[2] == "1" || f[2] == "3" {
 					method = "HEAD"
 				}
 				req, _ := http.NewRequest(method, "http://x/", nil)
+				if f[2] == "2" || f[2] == "3" {
+					// an HTTP/1.0 request on a kept-alive tunnel: the answer must be framed exactly like any other
+					req.Proto, req.ProtoMajor, req.ProtoMinor = "HTTP/1.0", 1, 0
+				}
 				r.ForRequest(req)
 				if f[3] != "-" {
 					r.SetHeader("Content-Length", f[3])
 				}
 				r.Write(status, &wireSrc{data: body, fails: f[4] == "1"})
 				out := wireReason.ReplaceAll(buf.Bytes(), []byte("$1 X\r\n"))
+				if bytes.HasPrefix(out, []byte("HTTP/1.0 ")) {
+					o.Count("status-line:http/1.0")
+				}
 				kind := "none"
 				hs := string(out)
 				if i := strings.Index(hs, "\r\n\r\n"); i >= 0 {
@@ -94,7 +101,7 @@ func init() {
 			lens := []string{"-", "0", "1", "2", "3", "11", "26", "300", "1000"}
 			// bounded-exhaustive core
 			for _, st := range statuses {
-				for _, hd := range []string{"0", "1"} {
+				for _, hd := range []string{"0", "1", "2"} {
 					for _, cl := range lens {
 						for _, fl := range []string{"0", "1"} {
 							for _, b := range bodies[:5] {
@@ -132,6 +139,9 @@ func init() {
 				hd := "0"
 				if r.Chance(15) {
 					hd = "1"
+				}
+				if r.Chance(20) {
+					hd = map[string]string{"0": "2", "1": "3"}[hd]
 				}
 				emit("wire", strconv.Itoa(statuses[r.Intn(len(statuses))]), hd, cl, fl, hx(b))
 			}
